@@ -4,7 +4,10 @@ import (
 	"encoding/json"
 	"flag"
 	"fmt"
+	"math/big"
 
+	"github.com/xuperchain/xupercore/bcs/ledger/xledger/state/utxo/txhash"
+	pb "github.com/xuperchain/xupercore/bcs/ledger/xledger/xldgpb"
 	"github.com/xuperchain/xupercore/kernel/contract"
 	aclu "github.com/xuperchain/xupercore/kernel/permission/acl/utils"
 	"github.com/xuperchain/xupercore/protos"
@@ -68,7 +71,53 @@ func newHistSim(name string, n *names) (*histSim, error) {
 	reg.RegisterKernMethod(appName, appMeth, func(ctx contract.KContext) (*contract.Response, error) {
 		return &contract.Response{Status: 200, Message: "ok"}, nil
 	})
+	// fund both account names (a name can hold funds before the account exists) and confirm the transfers
+	bank := fx.GetKey("c11/bank")
+	for _, a := range []string{"A1", "A2"} {
+		if err := h.transfer(bank, bank.Address, nil, bank.Address, h.acct(a), 1000); err != nil {
+			return nil, fmt.Errorf("funding: %v", err)
+		}
+	}
+	h.seq++
+	if err := mine(node, fx.GetKey("m"), h.seq); err != nil {
+		return nil, err
+	}
 	return h, nil
+}
+
+// transferTx builds a signed plain transfer of amount from `from` (an address or an account name).
+func (h *histSim) transferTx(signer *fx.Key, authURI string, from, to string, amount int64) (*pb.Transaction, error) {
+	ins, _, total, err := h.node.State.SelectUtxos(from, big.NewInt(amount), false, false)
+	if err != nil {
+		return nil, err
+	}
+	h.seq++
+	tx := &pb.Transaction{Version: 3, Nonce: fmt.Sprintf("c11-t-%d", h.seq), Timestamp: h.seq, Initiator: signer.Address, AuthRequire: []string{authURI}}
+	tx.TxInputs = ins
+	tx.TxOutputs = []*protos.TxOutput{{ToAddr: []byte(to), Amount: big.NewInt(amount).Bytes()}}
+	if rest := new(big.Int).Sub(total, big.NewInt(amount)); rest.Sign() > 0 {
+		tx.TxOutputs = append(tx.TxOutputs, &protos.TxOutput{ToAddr: []byte(from), Amount: rest.Bytes()})
+	}
+	sig, err := txhash.ProcessSignTx(fx.Crypto, tx, []byte(signer.PrivStr))
+	if err != nil {
+		return nil, err
+	}
+	tx.InitiatorSigns = []*protos.SignatureInfo{{PublicKey: signer.PubStr, Sign: sig}}
+	tx.AuthRequireSigns = []*protos.SignatureInfo{{PublicKey: signer.PubStr, Sign: sig}}
+	tx.Txid, err = txhash.MakeTransactionID(tx)
+	return tx, err
+}
+
+// transfer (setup only): build, verify, apply.
+func (h *histSim) transfer(signer *fx.Key, authURI string, _ []string, from, to string, amount int64) error {
+	tx, err := h.transferTx(signer, authURI, from, to, amount)
+	if err != nil {
+		return err
+	}
+	if ok, err := h.node.State.VerifyTx(tx); !ok || err != nil {
+		return fmt.Errorf("VerifyTx: %v %v", ok, err)
+	}
+	return h.node.State.DoTx(tx)
 }
 
 func (h *histSim) acct(a string) string { return h.n.acct[a] }
@@ -122,6 +171,21 @@ func (h *histSim) step(op fx.Ev) (string, string, error) {
 	case "call":
 		k := key("k")
 		return h.submit(k, k.Address, call{appName, appMeth, map[string][]byte{}})
+	case "spend":
+		// one unit out of the account's funds to the signer, AuthRequire = [account/(Kvia/)Kk]
+		k := key("k")
+		tx, err := h.transferTx(k, h.uri(op.Str("a"), op.Int("k"), op.Int("via")), h.acct(op.Str("a")), k.Address, 1)
+		if err != nil {
+			return "", "", fmt.Errorf("building the transfer: %v", err)
+		}
+		ok, verr := h.node.State.VerifyTx(tx)
+		if !ok || verr != nil {
+			return "reject", fmt.Sprint(verr), nil
+		}
+		if err := h.node.State.DoTx(tx); err != nil {
+			return "", "", fmt.Errorf("DoTx of a verified transfer: %v", err)
+		}
+		return "accept", "", nil
 	case "mine":
 		h.seq++
 		if err := mine(h.node, fx.GetKey("m"), h.seq); err != nil {
